@@ -527,6 +527,29 @@ int stripPartitions(NifFile& nif, Rng& rng) {
 	return changed;
 }
 
+int rotatePartitionTriangles(NifFile& nif, Rng& rng) {
+	int changed = 0;
+	auto& hdr = nif.GetHeader();
+	for (uint32_t b = 0; b < hdr.GetNumBlocks(); b++) {
+		auto sp = hdr.GetBlock<NiSkinPartition>(b);
+		if (!sp || !sp->bMappedIndices) continue;
+		bool any = false;
+		for (auto& p : sp->partitions) {
+			if (p.numStrips || p.triangles.empty()) continue;
+			for (auto& t : p.triangles) {
+				uint32_t k = rng.below(3);
+				if (k == 1) t = Triangle(t.p2, t.p3, t.p1);
+				else if (k == 2) t = Triangle(t.p3, t.p1, t.p2);
+			}
+			p.trueTriangles.clear();
+			any = true;
+			changed++;
+		}
+		if (any) sp->triParts.clear();
+	}
+	return changed;
+}
+
 int dropPartitionFaces(NifFile& nif) {
 	int changed = 0;
 	auto& hdr = nif.GetHeader();
